@@ -360,6 +360,11 @@ func runC10(w *World, r *Report) {
 		if cellObj(be.Y) == hdrObj {
 			strict = be.Op == token.GTR || be.Op == token.LEQ
 		}
+		// `count == P` / `count != P` is the same test as `count >= P` / `count < P` for a count that grows by
+		// one from below P
+		if isC && v == P && (be.Op == token.EQL || be.Op == token.NEQ) {
+			return true
+		}
 		if !isC || !strict || v != P {
 			okCmp = false
 			r.Fail(VViolation, "complete", in.Key, "prefix-threshold", w.Pos(be.Pos()), fmt.Sprintf("the prefix count is compared by %q, not by '< %d' / '>= %d' (the prefix buffer's length): the length field is read before the prefix is complete, or bytes are written beyond the prefix buffer", types.ExprString(be), P, P))
@@ -417,26 +422,81 @@ func runC10(w *World, r *Report) {
 	} else {
 		r.Fail(VViolation, "complete", in.Key, "remaining", w.Pos(remAssign.Pos()), remDiag)
 	}
-	// (d) the hand-off is enclosed in `remaining == 0`
-	enclosed := false
+	// every send to the full pool is a hand-off and needs the guard
+	var allSends []*ast.SendStmt
 	inspectAll(func(n ast.Node) bool {
-		is, ok := n.(*ast.IfStmt)
-		if !ok || !(is.Body.Pos() <= fullSend.Pos() && fullSend.End() <= is.Body.End()) {
-			return true
-		}
-		if be, ok := unparen(is.Cond).(*ast.BinaryExpr); ok && (be.Op == token.EQL || be.Op == token.LEQ) {
-			if cellObj(be.X) == remObj {
-				if v, isC := constIntOf(info, be.Y); isC && v == 0 {
-					enclosed = true
-				}
-			}
+		if x, ok := n.(*ast.SendStmt); ok && fieldOf(info, x.Chan) == so.poolFull {
+			allSends = append(allSends, x)
 		}
 		return true
 	})
-	if enclosed {
-		r.OK("complete", in.Key, "handoff-guard", w.Pos(fullSend.Pos()), "the send to the full pool is enclosed in the test 'remaining == 0'", true)
-	} else {
-		r.Fail(VViolation, "complete", in.Key, "handoff-guard", w.Pos(fullSend.Pos()), "the buffer is handed to the parsers without the test that the remaining-bytes counter reached zero: incomplete or over-long frames are delivered")
+	for si, fullSend := range allSends {
+		hgInst := "handoff-guard"
+		if si > 0 {
+			hgInst = fmt.Sprintf("handoff-guard#%d", si+1)
+		}
+		// (d) the hand-off is enclosed in `remaining == 0`
+		enclosed := false
+		inspectAll(func(n ast.Node) bool {
+			is, ok := n.(*ast.IfStmt)
+			if !ok || !(is.Body.Pos() <= fullSend.Pos() && fullSend.End() <= is.Body.End()) {
+				return true
+			}
+			if be, ok := unparen(is.Cond).(*ast.BinaryExpr); ok && (be.Op == token.EQL || be.Op == token.LEQ) {
+				if cellObj(be.X) == remObj {
+					if v, isC := constIntOf(info, be.Y); isC && v == 0 {
+						enclosed = true
+					}
+				}
+			}
+			return true
+		})
+		if !enclosed {
+			// the inverted form: `if remaining != 0 { break / continue / return }` earlier in the block of the send
+			inspectAll(func(n ast.Node) bool {
+				var list []ast.Stmt
+				switch b := n.(type) {
+				case *ast.BlockStmt:
+					list = b.List
+				case *ast.CaseClause:
+					list = b.Body
+				default:
+					return true
+				}
+				idx := -1
+				for i, st := range list {
+					if st.Pos() <= fullSend.Pos() && fullSend.End() <= st.End() {
+						if _, isSend := st.(*ast.SendStmt); isSend {
+							idx = i
+						}
+					}
+				}
+				for i := 0; i < idx; i++ {
+					is, ok := list[i].(*ast.IfStmt)
+					if !ok || is.Else != nil || len(is.Body.List) == 0 {
+						continue
+					}
+					be, ok := unparen(is.Cond).(*ast.BinaryExpr)
+					if !ok || cellObj(be.X) != remObj {
+						continue
+					}
+					v, isC := constIntOf(info, be.Y)
+					if !isC || v != 0 || !(be.Op == token.NEQ || be.Op == token.GTR) {
+						continue
+					}
+					switch is.Body.List[len(is.Body.List)-1].(type) {
+					case *ast.BranchStmt, *ast.ReturnStmt:
+						enclosed = true
+					}
+				}
+				return true
+			})
+		}
+		if enclosed {
+			r.OK("complete", in.Key, hgInst, w.Pos(fullSend.Pos()), "the send to the full pool is enclosed in the test 'remaining == 0'", true)
+		} else {
+			r.Fail(VViolation, "complete", in.Key, hgInst, w.Pos(fullSend.Pos()), "the buffer is handed to the parsers without the test that the remaining-bytes counter reached zero: incomplete or over-long frames are delivered")
+		}
 	}
 
 	// ---------------------------------------------------------------- handoff/inbound (typestate on the CFG)
@@ -708,6 +768,42 @@ func runC10(w *World, r *Report) {
 			r.OK("roles", "util.MessageStream", rl.name, ipos, fmt.Sprintf("%d sites, all in the owning function(s)", n), true)
 		}
 	}
+	// the connection is read only through its own Read at that one site: handing it to other code (a
+	// LimitReader, a bufio.Reader) creates a second reader the de-framing rules do not see
+	w.eachModuleFunc(func(fi *FuncInfo) {
+		inf := fi.Pkg.TypesInfo
+		var stack []ast.Node
+		ast.Inspect(fi.Decl.Body, func(n ast.Node) bool {
+			if n == nil {
+				stack = stack[:len(stack)-1]
+				return true
+			}
+			stack = append(stack, n)
+			se, ok := n.(*ast.SelectorExpr)
+			if !ok || fieldOf(inf, se) != so.conn || len(stack) < 2 {
+				return true
+			}
+			parent := stack[len(stack)-2]
+			if ps, ok := parent.(*ast.SelectorExpr); ok && ps.X == ast.Expr(se) {
+				return true // receiver of a method call or field access
+			}
+			if kv, ok := parent.(*ast.KeyValueExpr); ok && kv.Value == ast.Expr(se) {
+				return true // constructor literal
+			}
+			if as, ok := parent.(*ast.AssignStmt); ok {
+				for _, l := range as.Lhs {
+					if l == ast.Expr(se) {
+						return true // the constructor stores it
+					}
+				}
+			}
+			if be, ok := parent.(*ast.BinaryExpr); ok && (be.Op == token.EQL || be.Op == token.NEQ) {
+				return true // nil test
+			}
+			r.Fail(VViolation, "roles", fi.Key, "conn-escape", w.Pos(se.Pos()), "the stream's connection is passed on as a value (wrapped in another reader or stored elsewhere): bytes of a frame can then be taken by a reader other than the de-framer's single Read")
+			return true
+		})
+	})
 	// one Read site; reader spawned once
 	nRead, nGo := 0, 0
 	w.eachModuleFunc(func(fi *FuncInfo) {
